@@ -441,7 +441,8 @@ class Ctx:
         nv &= 0xFFFFFFFFFFFFFFFF
         if mv == nv:
             return True
-        return self.eng.classify(mv) != "other" and 0x550000000000 <= nv < 0x800000000000
+        is_code = symex.FUNC_BASE <= mv < symex.FUNC_BASE + 16 * (len(self.eng.faddr) + 1)
+        return (self.eng.classify(mv) != "other" or is_code) and 0x550000000000 <= nv < 0x800000000000
 
     def outcomes_agree(self, mo, no):
         if mo["status"] == "ret":
@@ -562,6 +563,42 @@ class Ctx:
                                                                                 "log": [[hex(x) for x in e] for e in mo["log"][:6]]},
                                         "native": {"status": no["status"], "ret": hex(no["ret"]) if no["ret"] is not None else None, "msg": no["msg"],
                                                    "log": [[hex(x) for x in e] for e in no["log"][:6]]}})
+
+    def validate_paths(self, paths, k=10):
+        """translator validation on explored paths: a model of each sampled path is turned into a native driver case;
+        the native outcome (status, return value, env_log sequence) must equal the path's outcome under that model"""
+        if self.native is None or self.adversarial:
+            return
+        cand = [p for p in paths if p.status in ("ret", "abort")]
+        if not cand:
+            return
+        step = max(1, len(cand) // k)
+        sample = cand[::step][:k]
+        cases, keep = [], []
+        for p in sample:
+            r, m = self.eng.check_sat(p.pc)
+            if r != "sat":
+                continue
+            try:
+                cases.append(self.native_case(p, m))
+                keep.append((p, m))
+            except Exception:
+                continue
+        if not cases:
+            return
+        outs = self.native.run_cases(cases)
+        for (p, m), no in zip(keep, outs):
+            if no["status"] == "map-failed":
+                continue
+            mo = self.model_outcome(p, m)
+            if no["status"] in ("ret", "abort") and no["status"] == mo["status"] and self.outcomes_agree(mo, no):
+                self.validated += 1
+            else:
+                self.mismatches.append({"kernel": p.kernel, "vec": self._describe(p, m).get("inputs"),
+                                        "engine": {"status": mo["status"], "ret": hex(mo["ret"]) if mo.get("ret") is not None else None,
+                                                   "log": [[hex(x) for x in e] for e in mo["log"][:8]]},
+                                        "native": {"status": no["status"], "ret": hex(no["ret"]) if no["ret"] is not None else None, "msg": no["msg"],
+                                                   "log": [[hex(x) for x in e] for e in no["log"][:8]]}})
 
     def result(self):
         return {"name": self.name, "obligations": self.obligations, "discharged": self.discharged,
@@ -797,7 +834,8 @@ def run_job(job):
         native = Native(exe) if exe else None
         for chk in job.checks:
             eng = Engine(m, unwind=chk.get("unwind", job.unwind), max_paths=job.max_paths, timeout_ms=job.timeout_ms)
-            eng.recheck_budget = getattr(job, "recheck", 0)
+            eng.recheck_budget = min(2, getattr(job, "recheck", 0))      # per kernel check; the job total is capped below
+            job.recheck = max(0, getattr(job, "recheck", 0) - eng.recheck_budget)
             install_env_stubs(eng)
             if job.setup:
                 job.setup(eng)
